@@ -13,9 +13,9 @@ use crate::elem::{self, Elem, W8DX};
 use crate::exec::{guarded, snap, snap_matches, Caught, Out, World};
 use crate::types::*;
 
-pub const N_WRITERS: u8 = 8;
+pub const N_WRITERS: u8 = 10;
 pub const N_READERS: u8 = 6;
-pub const N_SWAP_KINDS: u8 = 6;
+pub const N_SWAP_KINDS: u8 = 7;
 pub const N_WRONG_TYPES: u8 = 7;
 
 /// swap the bytes of `bytes` (one element) with a fresh value's bytes; the old value ends up in the temp and is dropped.
@@ -40,6 +40,7 @@ impl<T: Elem + SatisfyTraits<Tr>, M: MX, Tr: TrX + ?Sized> World<T, M, Tr> {
         let sz = T::SIZE;
         // 1. write
         let via_handle = w >= 6;
+        if w >= 8 && i != len - 1 { out.outcome.push_str("n/a"); return; } // pop handles address the last element
         let res = guarded(|| -> u16 {
             match w {
                 0 => { let mut e = a.at_mut(i); let t = e.downcast_mut::<T>().unwrap(); let _w = elem::WindowOff::new(); t.retag(); t.id() }
@@ -50,7 +51,10 @@ impl<T: Elem + SatisfyTraits<Tr>, M: MX, Tr: TrX + ?Sized> World<T, M, Tr> {
                 5 => { let mut e = a.iter_mut().nth(i).unwrap(); let t = e.downcast_mut::<T>().unwrap(); let _w = elem::WindowOff::new(); t.retag(); t.id() }
                 6 => { let mut h = a.remove(i); let id = { let t = h.downcast_mut::<T>().unwrap(); let _w = elem::WindowOff::new(); t.retag(); t.id() };
                        let seen = h.downcast_ref::<T>().unwrap().id(); assert_eq!(seen, id); b.as_mut().unwrap().push(h); id }
-                _ => { let mut h = a.swap_remove(i); let id = write_bytes_fresh::<T>(h.as_bytes_mut()); b.as_mut().unwrap().push(h); id }
+                7 => { let mut h = a.swap_remove(i); let id = write_bytes_fresh::<T>(h.as_bytes_mut()); b.as_mut().unwrap().push(h); id }
+                8 => { let mut h = a.pop().unwrap(); let id = { let t = h.downcast_mut::<T>().unwrap(); let _w = elem::WindowOff::new(); t.retag(); t.id() };
+                       let seen = h.downcast_ref::<T>().unwrap().id(); if seen != id { return u16::MAX; } b.as_mut().unwrap().push(h); id }
+                _ => { let mut h = a.pop().unwrap(); let id = write_bytes_fresh::<T>(h.as_bytes_mut()); let seen = elem::id_of_bytes(h.as_bytes()); if seen != id { return u16::MAX; } b.as_mut().unwrap().push(h); id }
             }
         });
         let new_id = match res {
@@ -59,7 +63,8 @@ impl<T: Elem + SatisfyTraits<Tr>, M: MX, Tr: TrX + ?Sized> World<T, M, Tr> {
             Err(Caught::Panic(m)) => { out.fail(Class::Vec, "unexpected-panic", format!("writer {w} panicked: {m}")); out.faulted = true; return; }
         };
         // model
-        match w { 6 => { ma.remove(i); mb.push(Mv::Id(new_id)); } 7 => { ma.swap_remove(i); mb.push(Mv::Id(new_id)); } _ => ma[i] = Mv::Id(new_id) }
+        if new_id == u16::MAX { out.fail(Class::Vec, "incoherent-view", format!("a value written through a mutable view of the pop handle (writer {w}) is not seen through its shared view")); out.faulted = true; return; }
+        match w { 6 => { ma.remove(i); mb.push(Mv::Id(new_id)); } 7 => { ma.swap_remove(i); mb.push(Mv::Id(new_id)); } 8 | 9 => { ma.pop(); mb.push(Mv::Id(new_id)); } _ => ma[i] = Mv::Id(new_id) }
         // 2. read back through the reader kind (for handle writers the value now lives at the end of B)
         let seen: Result<u16, Caught> = if via_handle {
             let vb = b.as_ref().unwrap();
@@ -81,7 +86,8 @@ impl<T: Elem + SatisfyTraits<Tr>, M: MX, Tr: TrX + ?Sized> World<T, M, Tr> {
     /// kinds: 0 wrapper (typed), 1 raw (untyped), 2 ElementMut of A[i], 3 remove handle of A (index i), 4 drained element of A, 5 ElementMut of B[0]
     pub fn do_swap(&mut self, lhs: u8, rhs: u8, i: usize, out: &mut Out) {
         let len = self.ma.len();
-        let uses_a = |k: u8| matches!(k, 2 | 3 | 4);
+        let uses_a = |k: u8| matches!(k, 2 | 3 | 4 | 6);
+        if (lhs == 6 || rhs == 6) && (len == 0 || i != len - 1) { out.outcome.push_str("n/a"); return; } // kind 6 = pop handle (last element)
         if (uses_a(lhs) && uses_a(rhs)) || (lhs == 5 && rhs == 5) { out.outcome.push_str("n/a"); return; }
         if (uses_a(lhs) || uses_a(rhs)) && i >= len { out.outcome.push_str("n/a"); return; }
         if T::SIZE == 0 { out.outcome.push_str("n/a"); return; }
@@ -95,7 +101,7 @@ impl<T: Elem + SatisfyTraits<Tr>, M: MX, Tr: TrX + ?Sized> World<T, M, Tr> {
         let lptr = NonNull::from(&mut *lw).cast::<u8>();
         let rptr = NonNull::from(&mut *rw).cast::<u8>();
         // before-ids of both places
-        let before = |k: u8, own: u16, ma: &Vec<Mv>, mb: &Vec<Mv>| -> u16 { match k { 0 | 1 => own, 2 | 3 | 4 => match ma[i] { Mv::Id(x) => x, Mv::CloneOf(p) => p }, _ => match mb[0] { Mv::Id(x) => x, Mv::CloneOf(p) => p } } };
+        let before = |k: u8, own: u16, ma: &Vec<Mv>, mb: &Vec<Mv>| -> u16 { match k { 0 | 1 => own, 2 | 3 | 4 | 6 => match ma[i] { Mv::Id(x) => x, Mv::CloneOf(p) => p }, _ => match mb[0] { Mv::Id(x) => x, Mv::CloneOf(p) => p } } };
         let lb = before(lhs, lid0, ma, mb);
         let rb = before(rhs, rid0, ma, mb);
         // wrappers take ownership of the backing value
@@ -108,6 +114,7 @@ impl<T: Elem + SatisfyTraits<Tr>, M: MX, Tr: TrX + ?Sized> World<T, M, Tr> {
                     2 => { let mut x = a.at_mut(i); let r = { let $p = &mut *x; $body }; let id = x.downcast_ref::<T>().unwrap().id(); (r, id) }
                     3 => { let mut x = a.remove(i); let r = { let $p = &mut x; $body }; let id = x.downcast_ref::<T>().unwrap().id(); vb.push(x); (r, id) }
                     4 => { let mut d = a.drain(i..i + 1); let mut x = d.next().unwrap(); let r = { let $p = &mut x; $body }; let id = x.downcast_ref::<T>().unwrap().id(); vb.push(x); drop(d); (r, id) }
+                    6 => { let mut x = a.pop().unwrap(); let r = { let $p = &mut x; $body }; let id = x.downcast_ref::<T>().unwrap().id(); vb.push(x); (r, id) }
                     _ => { let mut x = vb.at_mut(0); let r = { let $p = &mut *x; $body }; let id = x.downcast_ref::<T>().unwrap().id(); (r, id) }
                 }
             } }
@@ -138,7 +145,7 @@ impl<T: Elem + SatisfyTraits<Tr>, M: MX, Tr: TrX + ?Sized> World<T, M, Tr> {
                 // model: places backed by vectors
                 let put = |k: u8, newid: u16, ma: &mut Vec<Mv>, mb: &mut Vec<Mv>| match k {
                     2 => ma[i] = Mv::Id(newid),
-                    3 | 4 => { ma.remove(i); mb.push(Mv::Id(newid)); }
+                    3 | 4 | 6 => { ma.remove(i); mb.push(Mv::Id(newid)); }
                     5 => mb[0] = Mv::Id(newid),
                     _ => {}
                 };
